@@ -145,5 +145,6 @@ def dispatch_batch_size(rep, an):
                   msg=f"returns {r!r}" if good is not True else "ok")
     res = an.run(entry, kws=dict(batch_size=strv("batch_size", "bogus"), total_size=tot), config="batch_size='bogus'")
     raised = [e for e in res.events("raise")]
-    rep.check("R-DISPATCH", "get_batch_size(other str) → raise", bool(raised) and not res.events("return"),
+    from . import formulation as F_
+    rep.check("R-DISPATCH", "get_batch_size(other str) → raise", F_.raises(res),
               where=res.fn.loc(), construct="get_batch_size('bogus')", entry="get_batch_size", config=res.config)
